@@ -362,6 +362,22 @@ class Slice(ArrayExpr):
         return meta
 
 
+def _tight_stop(idx, dim):
+    """``idx`` (normalized, positive step) with its stop just past the last selected position."""
+    if idx.step is None or idx.step <= 1 or idx.start is None or idx.stop is None:
+        return idx
+    n = len(range(*idx.indices(dim)))
+    if n == 0:
+        return idx
+    return slice(idx.start, idx.start + (n - 1) * idx.step + 1, idx.step)
+
+
+def _chunks_equal(a, b):
+    return len(a) == len(b) and all(
+        len(x) == len(y) and all(p == q or (p != p and q != q) for p, q in zip(x, y)) for x, y in zip(a, b)
+    )
+
+
 class SliceSlicesIntegers(Slice):
     _parameters = ["array", "index", "allow_getitem_optimization"]
 
@@ -379,10 +395,17 @@ class SliceSlicesIntegers(Slice):
             try:
                 fused = fuse_slice(self.array.index, self.index)
                 normalized = tuple(
-                    normalize_slice(idx, dim) if isinstance(idx, slice) else idx
+                    _tight_stop(normalize_slice(idx, dim), dim) if isinstance(idx, slice) else idx
                     for idx, dim in zip(fused, self.array.array.shape)
                 )
-                return SliceSlicesIntegers(self.array.array, normalized, self.allow_getitem_optimization)
+                single = SliceSlicesIntegers(self.array.array, normalized, self.allow_getitem_optimization)
+                # The single slice must cut the same blocks as the two it
+                # replaces: consumers built against this node's block grid
+                # (map_blocks with explicit chunks, block_info payloads) keep
+                # referring to it.  A strided slice whose stop reaches into a
+                # block it selects nothing from leaves an empty block there.
+                if _chunks_equal(single.chunks, self.chunks):
+                    return single
             except NotImplementedError:
                 # Skip fusion for unsupported slicing patterns (e.g., negative step)
                 pass
